@@ -70,6 +70,17 @@ def strategy(tier):
     return gen_geom.planted(max_copies=4, tightness=[1.02, 1.02, 1.1, 1.5, 3.0])
 
 
+def edit_oracle(case, stats):
+    from props.c01 import edit_oracle as eo
+    eo(case, stats, completeness=True)
+
+
+def edit_strategy(tier):
+    from props.c01 import edit_case
+    return edit_case()
+
+
 PARTS = [
     HypPart("planted", strategy, oracle, {"quick": 6000, "thorough": 60000}),
+    HypPart("edit-then-search", edit_strategy, edit_oracle, {"quick": 1500, "thorough": 15000}),
 ]
